@@ -61,7 +61,7 @@ def st_case(tier):
             # base addresses incl. ones that are not aligned on the window (the bridges subtract the base)
             c["base"] = draw(st.sampled_from([0, 0, 0x1000, 0x40000000, 0x20, 0x50, 0x1010])) if dut in ("axil2wb", "wb2axil") else 0
             c["wb_addressing"] = draw(st.sampled_from(["word", "byte"])) if dut in ("axil2wb", "wb2axil") else "word"
-            c["ops"] = st_ops(draw, dw // 8, window, c["base"], nmax, full_strb_only=(dut == "axil2csr"))
+            c["ops"] = st_ops(draw, dw // 8, window, c["base"], nmax)   # CSR words have no byte enables: any non-zero strobe writes the word (oracle below)
         else:
             ratio = draw(st.sampled_from([2, 2, 4, 8]))
             small = draw(st.sampled_from([8, 16, 32]))
